@@ -245,7 +245,9 @@ Definition consumergroup_assumptions_hold (calls : list call_fact) (accs : list 
                                 waiter) by Reader.run only
    LUnCancel, LUnJoin,          unsubscribe: section of r.mutex reading r.cancel,  R4, R16, R17
    LUnsubscribe                 cancel, THEN r.join.Wait() outside the mutex
-   LRDone                       deferred close(r.done): once, by Reader.run        R13 *)
+   LRDone                       deferred close(r.done): once, by Reader.run        R13
+   LGClose, LGJoined            Generation.close: one section of g.lock, then      R19
+                                <-g.joined; no early return when already closed *)
 Definition reader_assumptions : list assumption := [
   (* R1  *) FieldHolds "Reader" "closed" "Reader.mutex";
   (* R2  *) FieldHolds "Reader" "version" "Reader.mutex";
@@ -304,7 +306,16 @@ Definition reader_assumptions : list assumption := [
   (* R18 *) UsedExactlyOnce "Reader.commitLoop" HCall "Reader.run$3";
             CallInGo "Reader.commitLoop" true;
             UsesWithin "Reader.commitOffsetsWithRetry"
-              [(HCall, "Reader.commitLoopImmediate"); (HCall, "Reader.commitLoopInterval$1")]
+              [(HCall, "Reader.commitLoopImmediate"); (HCall, "Reader.commitLoopInterval$1")];
+  (* R19 *) (* LGClose / LGJoined of Model/Lifecycle.v ("gen.close() waits for every accounted function", also
+               when the generation has already ended on its own): Generation.close is ONE section of g.lock —
+               a single unlock, no early way out — followed, outside the lock, by the only <-g.joined *)
+            InCaller "Generation.close" (UsedExactlyOnce "unlock(Generation.lock)" HCall "Generation.close");
+            InCaller "Generation.close" (UsedExactlyOnce "lock(Generation.lock)" HCall "Generation.close");
+            UsedExactlyOnce "recv(Generation.joined)" HCall "Generation.close";
+            InCaller "Generation.close" (CallAfterCall "recv(Generation.joined)" "unlock(Generation.lock)");
+            CallFree "recv(Generation.joined)" "Generation.lock";
+            UsesWithin "Generation.close" [(HCall, "ConsumerGroup.nextGeneration")]
 ].
 
 Definition reader_assumptions_hold (calls : list call_fact) (accs : list access_fact) : bool :=
